@@ -11,7 +11,8 @@ LEAN_MODULES = ["Exetera.Props.C14", "Exetera.Witness.C14"]
 THEOREMS = []  # checks/obligations/C14.json
 EXHAUSTIVE = {"quick": True, "thorough": True}
 MODES = {"quick": ["jit"], "thorough": ["jit", "nojit", "bounds"], "search": ["jit", "nojit"]}
-CASE_TIMEOUT = 30
+CASE_TIMEOUT = 120   # first call per worker compiles the kernels (slow under NUMBA_BOUNDSCHECK and load); a SIGALRM landing inside
+                     # np.array(typed list) is swallowed by numpy and surfaces as a bogus IndexError, so keep this generous
 RULE = ("indexed strings, exhaustive: every column of length <= n over the alphabet {'', 'a', 'ab', 'b', 'ba', 'é'} "
         "(quick n=4, thorough n=6 [all 8 return_* flag combinations up to n=5, two combinations at n=6]) for unique; every "
         "subset of that alphabet + {'aa', None} as isin test set, as list/tuple/set/str-array/object-array in several orders and "
